@@ -203,6 +203,8 @@ def scan_statics(repo):
     files = sorted(glob.glob(os.path.join(repo, "lib", "*.cpp")) + glob.glob(os.path.join(repo, "cli", "*.cpp")) +
                    [os.path.join(repo, "externals", "simplecpp", "simplecpp.cpp")])
     for f in files:
+        if not os.path.exists(f):
+            continue
         rel = os.path.relpath(f, repo)
         for line in open(f, encoding="utf-8", errors="replace"):
             line = re.sub(r"\s*//.*$", "", line.rstrip("\n"))
@@ -623,7 +625,7 @@ def eval_project(ctx, res, drv, proj, variant, k, orders=None, extra_exec=False)
     rng = ctx.rng
     if orders is None:
         orders = [sorted(srcs), sorted(srcs, reverse=True)]
-        for _ in range(3 if ctx.tier == "thorough" else 2):
+        for _ in range(3 if ctx.tier == "thorough" else 1):
             o = list(srcs)
             rng.shuffle(o)
             if o not in orders:
@@ -678,6 +680,7 @@ def eval_project(ctx, res, drv, proj, variant, k, orders=None, extra_exec=False)
         gset = set(t for t, _ in got)
         missing = [union[t] for t in union if t not in gset]
         extra = [x for x in comp if tag_of(x) not in union]
+        key = None
         if missing or extra:
             key = classify(proj, d, o, missing, extra, traces, tags.items, variant)
             viol.append((key, o, missing, extra))
@@ -686,7 +689,7 @@ def eval_project(ctx, res, drv, proj, variant, k, orders=None, extra_exec=False)
                           dict(files=proj["files"], order=o, opts=opts, missing=[tag_of(x) for x in missing], extra=[tag_of(x) for x in extra]),
                           concrete=True, key=key)
         # the model must see the same hypothesis failing
-        if (missing or extra) and all(p["I"] == "11111" for p in per):
+        if (missing or extra) and key != K_TEXT and all(p["I"] == "11111" for p in per):
             bad_comp.append(dict(order=o, note="implementation differs from the alone runs although Indep holds for every file in the model"))
         if extra_exec and len(o) >= 2:
             for ex in ("thread", "process"):
@@ -846,7 +849,7 @@ def run(ctx, res):
     projects = []
     for w in load_witnesses():
         projects.append((w, w.get("orders")))
-    n = 160 if ctx.tier == "thorough" else 26
+    n = 160 if ctx.tier == "thorough" else 12
     for _ in range(n):
         projects.append((gen_project(rng, stats), None))
     thorough = ctx.tier == "thorough"
@@ -857,8 +860,11 @@ def run(ctx, res):
             return eval_project(ctx, res, drv, proj, variant, k, orders, extra_exec=thorough and k % 4 == 0)
         except core.CheckBroken as ex:
             return dict(broken=str(ex))
-    with ThreadPoolExecutor(max_workers=6) as ex:
+    import time
+    t0 = time.time()
+    with ThreadPoolExecutor(max_workers=8) as ex:
         outs = list(ex.map(work, list(enumerate(projects))))
+    res.extra["projects_s"] = round(time.time() - t0, 1)
     bad_alone, bad_comp = [], []
     for o in outs:
         if o is None:
@@ -873,7 +879,9 @@ def run(ctx, res):
               (len(bad_alone), json.dumps(bad_alone[0])[:1500]))
     res.oblig("correspondence:company-run-from-alone-traces", not bad_comp, "correspondence",
               "" if not bad_comp else "%d company runs differ from the model prediction; first: %s" % (len(bad_comp), json.dumps(bad_comp[0])[:1500]))
+    t0 = time.time()
     bd_checks(ctx, res, variant)
+    res.extra["builddir_s"] = round(time.time() - t0, 1)
 
 
 def replay(ctx, res, rp):
